@@ -83,6 +83,10 @@ class ExprMixin:
             a = VCls(a.clsterm, a.name)
         if isinstance(b, VFunc) and b.kind == 'class':
             b = VCls(b.clsterm, b.name)
+        if isinstance(a, VFunc) and a.kind == 'builtin' and self.cls_id(a.name) is not None:
+            a = VCls(z3.IntVal(self.cls_id(a.name)), a.name)
+        if isinstance(b, VFunc) and b.kind == 'builtin' and self.cls_id(b.name) is not None:
+            b = VCls(z3.IntVal(self.cls_id(b.name)), b.name)
         if isinstance(a, VRef) and a.typ == ty.ANY and isinstance(b, num):
             return a.term == self.coerce(b, ty.ANY)
         if isinstance(b, VRef) and b.typ == ty.ANY and isinstance(a, num):
